@@ -68,6 +68,7 @@ func (n *LocalNode) stabilize() error {
 		succList = succList[1:]
 	}
 
+	verifPoint("stab.read", n)
 	n.lastStabilized.Store(time.Now())
 
 	listHash := n.hash(succList)
@@ -84,6 +85,7 @@ func (n *LocalNode) stabilize() error {
 		}
 	}
 
+	verifPoint("stab.done", n)
 	return nil
 }
 
@@ -127,6 +129,7 @@ func (n *LocalNode) fixFinger() error {
 			fixed = append(fixed, k)
 		}
 	}
+	verifPoint("fix.done", n)
 	if len(fixed) > 0 {
 		n.logger.Info("FingerTable entries updated", zap.Ints("fixed", fixed))
 	}
@@ -153,6 +156,7 @@ func (n *LocalNode) checkPredecessor() error {
 		}
 		n.predecessorMu.Unlock()
 	}
+	verifPoint("cp.done", n)
 	return err
 }
 
